@@ -194,6 +194,58 @@ func runC20(c *core.Ctx) {
 			what := ""
 			signedTweak = func(model any) {
 				pick := r.Pick(10)
+				// one time in three the unusual content is inside a mapping the structure carries (its
+				// options, the options of an address, the properties of an entry): a duplicate key, bytes
+				// that form no pair inside the declared extent, an empty key, a pair cut short - what the
+				// mapping parser refuses pair by pair while the container has everything it needs
+				if r.Chance(1, 3) {
+					odd := func() (rm.Mapping, string) {
+						base := gen.Mapping(r, 4)
+						if len(base.Pairs) == 0 {
+							base.Pairs = []rm.Pair{{K: []byte("caps"), V: []byte("fR")}}
+						}
+						switch r.Pick(5) {
+						case 0:
+							base.Pairs = append(base.Pairs, base.Pairs[r.Pick(len(base.Pairs))])
+							return base, "duplicate key in a mapping"
+						case 1:
+							return rm.Mapping{Raw: append(base.Body(), r.Bytes(1+r.Pick(5))...)}, "bytes that form no pair inside a mapping's extent"
+						case 2:
+							base.Pairs = append([]rm.Pair{{K: []byte{}, V: []byte("x")}}, base.Pairs...)
+							return base, "empty key in a mapping"
+						case 3:
+							b := base.Body()
+							return rm.Mapping{Raw: b[:len(b)-1-r.Pick(min(3, len(b)-1))]}, "last pair of a mapping cut short"
+						default:
+							b := base.Body()
+							b[len(b)-1] = ','
+							return rm.Mapping{Raw: b}, "wrong delimiter in a mapping"
+						}
+					}
+					switch m := model.(type) {
+					case *rm.RouterInfo:
+						if len(m.Addrs) > 0 && r.Chance(1, 2) {
+							m.Addrs = append([]rm.RouterAddress{}, m.Addrs...)
+							m.Addrs[r.Pick(len(m.Addrs))].Options, what = odd()
+							what += " (address options)"
+						} else {
+							m.Options, what = odd()
+						}
+						return
+					case *rm.LeaseSet2:
+						m.Options, what = odd()
+						return
+					case *rm.MetaLeaseSet:
+						if len(m.Entries) > 0 && r.Chance(1, 2) {
+							m.Entries = append([]rm.MetaEntry{}, m.Entries...)
+							m.Entries[r.Pick(len(m.Entries))].Props, what = odd()
+							what += " (entry properties)"
+						} else {
+							m.Options, what = odd()
+						}
+						return
+					}
+				}
 				switch m := model.(type) {
 				case *rm.RouterInfo:
 					switch pick % 5 {
